@@ -305,8 +305,161 @@ def site(mi: ModuleInfo, node: ast.AST, func: str = "") -> str:
     return f"{mi.rel}:{getattr(node, 'lineno', 0)}" + (f" ({func})" if func else "")
 
 
+# ----------------------------------------------------------------------------------------------
+# Canonical spelling: U(e) renders an expression in a canonical form, and comparing that rendering with a plain string
+# canonicalises the string first, so that rules are insensitive to behaviour-preserving spellings
+# (x.size() / x.shape, torch.round(x) / x.round(), keyword / positional arguments of package functions, 1 << n / 2 ** n ...).
+# ----------------------------------------------------------------------------------------------
+_METHOD_FORM = {"round", "clamp", "clip", "abs", "amax", "amin", "squeeze", "reshape", "permute", "t", "transpose", "flatten", "neg", "contiguous", "unsqueeze"}
+_SIGNATURES: Dict[str, ast.FunctionDef] = {}  # unique package function / constructor names -> def (filled by set_active_repo)
+
+
+class _Canon(ast.NodeTransformer):
+    def visit_Call(self, node):
+        self.generic_visit(node)
+        f = node.func
+        if isinstance(f, ast.Attribute):
+            base = f.value
+            # torch.f(x, ...) -> x.f(...)
+            if isinstance(base, ast.Name) and base.id == "torch" and f.attr in _METHOD_FORM and node.args and not isinstance(node.args[0], ast.Starred):
+                node = ast.Call(func=ast.Attribute(value=node.args[0], attr=f.attr, ctx=ast.Load()), args=node.args[1:], keywords=node.keywords)
+                f = node.func
+            if isinstance(base, ast.Name) and base.id == "torch" and f.attr in ("max", "min") and len(node.args) == 1 and not node.keywords:
+                return ast.Call(func=ast.Attribute(value=node.args[0], attr=f.attr, ctx=ast.Load()), args=[], keywords=[])
+            if isinstance(base, ast.Name) and base.id == "torch" and f.attr == "matmul" and len(node.args) == 2 and not node.keywords:
+                return ast.BinOp(left=node.args[0], op=ast.MatMult(), right=node.args[1])
+            f = node.func
+            if f.attr == "clip":
+                f.attr = "clamp"
+            if f.attr == "clamp" and node.args and not any(isinstance(a, ast.Starred) for a in node.args):
+                names = ["min", "max"]
+                kws = [ast.keyword(arg=names[i], value=a) for i, a in enumerate(node.args[:2])]
+                node = ast.Call(func=f, args=[], keywords=kws + node.keywords)
+            if f.attr == "size":
+                if not node.args and not node.keywords:
+                    return ast.Attribute(value=f.value, attr="shape", ctx=ast.Load())
+                if len(node.args) == 1 and not node.keywords:
+                    return ast.Subscript(value=ast.Attribute(value=f.value, attr="shape", ctx=ast.Load()), slice=node.args[0], ctx=ast.Load())
+            if f.attr == "dim" and not node.args and not node.keywords:
+                return ast.Attribute(value=f.value, attr="ndim", ctx=ast.Load())
+            return node
+        if isinstance(f, ast.Name):
+            if f.id == "len" and len(node.args) == 1 and isinstance(node.args[0], ast.Attribute) and node.args[0].attr == "shape":
+                return ast.Attribute(value=node.args[0].value, attr="ndim", ctx=ast.Load())
+            if f.id == "range" and len(node.args) == 2 and isinstance(node.args[0], ast.Constant) and node.args[0].value == 0 and not node.keywords:
+                return ast.Call(func=f, args=[node.args[1]], keywords=[])
+            sig = _SIGNATURES.get(f.id)
+            if sig is not None and node.keywords and not any(k.arg is None for k in node.keywords) and not any(isinstance(a, ast.Starred) for a in node.args):
+                skip = 1 if sig.name == "__init__" else 0
+                pos = [a.arg for a in sig.args.posonlyargs + sig.args.args][skip:]
+                given = {k.arg: k.value for k in node.keywords}
+                if all(k in pos for k in given) and len(node.args) <= len(pos):
+                    args = list(node.args)
+                    ok = True
+                    for name in pos[len(args):]:
+                        if name in given:
+                            args.append(given.pop(name))
+                        elif given:
+                            ok = False  # a gap before a later keyword: keep keywords
+                            break
+                        else:
+                            break
+                    if ok and not given:
+                        return ast.Call(func=f, args=args, keywords=[])
+        return node
+
+    def visit_BinOp(self, node):
+        self.generic_visit(node)
+        if isinstance(node.op, ast.LShift) and isinstance(node.left, ast.Constant) and node.left.value == 1:
+            return ast.BinOp(left=ast.Constant(value=2), op=ast.Pow(), right=node.right)
+        return node
+
+    def visit_UnaryOp(self, node):
+        self.generic_visit(node)
+        if isinstance(node.op, ast.Not) and isinstance(node.operand, ast.Compare) and len(node.operand.ops) == 1:
+            flip = {ast.Eq: ast.NotEq, ast.NotEq: ast.Eq, ast.Is: ast.IsNot, ast.IsNot: ast.Is, ast.In: ast.NotIn, ast.NotIn: ast.In,
+                    ast.Lt: ast.GtE, ast.GtE: ast.Lt, ast.Gt: ast.LtE, ast.LtE: ast.Gt}
+            op = type(node.operand.ops[0])
+            if op in flip:
+                return ast.Compare(left=node.operand.left, ops=[flip[op]()], comparators=node.operand.comparators)
+        return node
+
+    def visit_Compare(self, node):
+        self.generic_visit(node)
+        if len(node.ops) == 1:
+            # type(x) is T -> type(x) == T ;  x in [a, b] -> x in (a, b)
+            if isinstance(node.ops[0], (ast.Is, ast.IsNot)) and isinstance(node.left, ast.Call) and isinstance(node.left.func, ast.Name) and node.left.func.id == "type":
+                node.ops = [ast.Eq() if isinstance(node.ops[0], ast.Is) else ast.NotEq()]
+            if isinstance(node.ops[0], (ast.In, ast.NotIn)) and isinstance(node.comparators[0], ast.List):
+                node.comparators = [ast.Tuple(elts=node.comparators[0].elts, ctx=ast.Load())]
+        return node
+
+
+_CANON_CACHE: Dict[str, str] = {}
+
+
+def canon_text(s: str) -> str:
+    r = _CANON_CACHE.get(s)
+    if r is None:
+        try:
+            tree = ast.parse(s, mode="eval").body
+            r = ast.unparse(ast.fix_missing_locations(_Canon().visit(tree)))
+        except (SyntaxError, ValueError, RecursionError):
+            r = s
+        _CANON_CACHE[s] = r
+    return r
+
+
+class CanonStr(str):
+    """The canonical rendering of an expression; equality with a plain string canonicalises the plain string."""
+
+    def __eq__(self, other):
+        if isinstance(other, CanonStr):
+            return str.__eq__(self, other)
+        if isinstance(other, str):
+            return str.__eq__(self, other) or str.__eq__(self, canon_text(other))
+        return NotImplemented
+
+    def __ne__(self, other):
+        r = self.__eq__(other)
+        return r if r is NotImplemented else not r
+
+    __hash__ = str.__hash__
+
+
 def U(e) -> str:
-    return ast.unparse(e) if isinstance(e, ast.AST) else repr(e)
+    if not isinstance(e, ast.AST):
+        return repr(e)
+    if isinstance(e, (ast.stmt, ast.mod, ast.keyword, ast.arguments, ast.comprehension, ast.ExceptHandler)):
+        return ast.unparse(e)
+    try:
+        c = _Canon().visit(copy.deepcopy(e))
+        return CanonStr(ast.unparse(ast.fix_missing_locations(c)))
+    except Exception:
+        return CanonStr(ast.unparse(e))
+
+
+class FactDict(dict):
+    """facts keyed by canonical text; lookups canonicalise the key"""
+
+    @staticmethod
+    def _k(key):
+        return key if isinstance(key, CanonStr) or not isinstance(key, str) else canon_text(key)
+
+    def get(self, key, default=None):
+        return dict.get(self, self._k(key), default)
+
+    def __getitem__(self, key):
+        return dict.__getitem__(self, self._k(key))
+
+    def __contains__(self, key):
+        return dict.__contains__(self, self._k(key))
+
+    def setdefault(self, key, default=None):
+        return dict.setdefault(self, str(self._k(key)), default)
+
+    def __setitem__(self, key, value):
+        dict.__setitem__(self, str(self._k(key)), value)
 
 
 def params_of(fn: ast.FunctionDef) -> List[str]:
@@ -397,7 +550,7 @@ class Path:
         """Truth of a condition (by normalised text) on this path, None if not tested."""
         for c, t, _ in self.conds:
             for atom, pol in atoms(c, t):
-                if atom == text:
+                if atom == text:  # CanonStr equality canonicalises `text`
                     return pol
         return None
 
@@ -434,7 +587,7 @@ def atoms(cond: ast.AST, truth: bool) -> List[Tuple[str, bool]]:
 def path_facts(p: "Path") -> Dict[str, bool]:
     """Atomic facts known on a path, closed under unit propagation:
     not(a and b) with a known true gives not b;  (a or b) with a known false gives b."""
-    f: Dict[str, bool] = {}
+    f: Dict[str, bool] = FactDict()
     pending = []
     for c, t, _ in p.conds:
         for a, pol in atoms(c, t):
@@ -894,6 +1047,28 @@ def set_active_repo(repo: "Repo"):
             for n in ast.walk(ci.node):
                 if isinstance(n, (ast.FunctionDef, ast.AsyncFunctionDef)):
                     _CLASS_OF.setdefault(id(n), ci)
+    _SIGNATURES.clear()
+    _CANON_CACHE.clear()
+    counts: Dict[str, int] = {}
+    for mi in repo.modules.values():
+        if not mi.rel.startswith("optimum/"):
+            continue
+        for name, node in mi.defs.items():
+            if isinstance(node, (ast.FunctionDef, ast.ClassDef)):
+                counts[name] = counts.get(name, 0) + 1
+    for mi in repo.modules.values():
+        if not mi.rel.startswith("optimum/"):
+            continue
+        for name, node in mi.defs.items():
+            if counts.get(name) != 1:
+                continue
+            if isinstance(node, ast.FunctionDef) and not node.args.vararg and not node.args.kwarg:
+                _SIGNATURES[name] = node
+            elif isinstance(node, ast.ClassDef):
+                ci = next((c for c in repo.classes.get(name, []) if c.node is node), None)
+                m = repo.method(ci, "__init__") if ci else None
+                if m is not None and not m[1].args.vararg and not m[1].args.kwarg:
+                    _SIGNATURES[name] = m[1]
 
 
 class _Qualify(ast.NodeTransformer):
